@@ -15,6 +15,7 @@ int  g_seek_n;   /* Hseek calls */
 int  g_seek_off; /* offset of the last Hseek */
 int  g_iofail;   /* some stubbed I/O or allocation step reported failure */
 int  g_anybad;   /* harness-computed: the request is invalid (existential over dimensions) */
+int  g_chk_verdict; /* 1: the run unwinds all loops, so the existential clause (4) is checked too */
 int32 g_aid;     /* the access id the variable is attached with */
 int32 g_reclen;  /* expected fill-record length */
 
@@ -181,9 +182,7 @@ bool_t H4_NCcoordck(NC *handle, NC_var *vp, const long *coords)
     __CPROVER_requires(coords[g_d] >= -2147483647L - 1 && coords[g_d] <= 2147483647L)
     __CPROVER_requires(coords[0] >= -2147483647L - 1 && coords[0] < 2147483647L)
     /* the data element of a variable is shorter than 2 GB (HDF4 format limit) */
-#ifndef NOMUL
-    __CPROVER_requires((long)vp->numrecs * (long)vp->len <= 2147483647L)
-#endif
+    __CPROVER_requires(!__CPROVER_overflow_mult(vp->numrecs, (int)vp->len))
     __CPROVER_requires(g_nr0 == vp->numrecs && g_hw_n == 0 && g_hw_ok == 0 && g_seek_n == 0 && g_iofail == 0 &&
                        g_reclen == (int32)vp->len && g_aid != FAIL)
     __CPROVER_assigns(vp->numrecs, handle->numrecs, handle->flags, vp->aid, vp->data_ref, vp->set_length, g_hw_n,
@@ -196,17 +195,19 @@ bool_t H4_NCcoordck(NC *handle, NC_var *vp, const long *coords)
     /* (3) SD read access at or beyond the variable's number of records is rejected */
     __CPROVER_ensures((C03_REC(vp) && handle->xdrs->x_op != XDR_ENCODE && coords[0] >= __CPROVER_old(vp->numrecs)) ==>
                       __CPROVER_return_value == FALSE)
-    /* (4) nothing else is rejected: FALSE without an I/O failure means the request is invalid
-           (g_anybad is the harness-computed disjunction over all dimensions of (1)-(3)) */
-    __CPROVER_ensures((__CPROVER_return_value == FALSE && !g_iofail) ==> g_anybad)
-    __CPROVER_ensures(g_anybad ==> (__CPROVER_return_value == FALSE && !g_iofail))
+    /* (4) nothing else is rejected: FALSE without an I/O failure means the request is invalid.
+           g_anybad is the harness-computed disjunction of (1)-(3) over ALL dimensions; an existential
+           conclusion cannot be carried through a loop contract, so this clause is checked only in
+           the unwound run (obligation NCcoordck_verdict, g_chk_verdict == 1) */
+    __CPROVER_ensures((g_chk_verdict && __CPROVER_return_value == FALSE && !g_iofail) ==> g_anybad)
     /* (5) an invalid request, a fixed-size variable, or an existing record: no state change, no I/O */
-    __CPROVER_ensures((g_anybad || !C03_REC(vp) || coords[0] < __CPROVER_old(vp->numrecs)) ==>
+    __CPROVER_ensures(((C03_FIXED(vp, g_d) && C03_OUTSIDE(vp, coords, g_d)) || coords[0] < 0 || !C03_REC(vp) ||
+                       coords[0] < __CPROVER_old(vp->numrecs) || handle->xdrs->x_op != XDR_ENCODE) ==>
                       (vp->numrecs == __CPROVER_old(vp->numrecs) && handle->numrecs == __CPROVER_old(handle->numrecs) &&
                        handle->flags == __CPROVER_old(handle->flags) && g_hw_n == 0 && g_seek_n == 0))
     /* (6) failure never shrinks or over-extends: only whole fill records already written count */
     __CPROVER_ensures(__CPROVER_return_value == FALSE ==>
-                      (vp->numrecs == __CPROVER_old(vp->numrecs) + g_hw_ok &&
+                      ((long)vp->numrecs == (long)__CPROVER_old(vp->numrecs) + (long)g_hw_ok &&
                        handle->numrecs == __CPROVER_old(handle->numrecs)))
     /* (7) success on a record variable: numrecs' == max(numrecs, index + 1), file-wide too */
     __CPROVER_ensures((__CPROVER_return_value == TRUE && C03_REC(vp)) ==>
@@ -226,6 +227,77 @@ bool_t H4_NCcoordck(NC *handle, NC_var *vp, const long *coords)
                                             ? (__CPROVER_old(handle->flags) | NC_NDIRTY)
                                             : __CPROVER_old(handle->flags)));
 
+
+/* ---- NC_varoffset: bounded stand-in (rank <= 3, extents <= 8, element size in {1,2,4,8}) ---- */
+/* row-major element index of a coordinate tuple (the record dimension's extent is never used) */
+#define VO_RM(vp, co)                                                                                \
+    (C03_RANK(vp) == 1 ? (unsigned long)(co)[0]                                                      \
+     : C03_RANK(vp) == 2                                                                             \
+         ? (unsigned long)(co)[0] * (vp)->shape[1] + (unsigned long)(co)[1]                          \
+         : ((unsigned long)(co)[0] * (vp)->shape[1] + (unsigned long)(co)[1]) * (vp)->shape[2] +     \
+               (unsigned long)(co)[2])
+#define VO_SMALL(vp)                                                                                 \
+    ((vp)->shape[0] <= 8 && (C03_RANK(vp) < 2 || ((vp)->shape[1] >= 1 && (vp)->shape[1] <= 8)) &&    \
+     (C03_RANK(vp) < 3 || ((vp)->shape[2] >= 1 && (vp)->shape[2] <= 8)))
+#define VO_INRANGE(vp, co)                                                                           \
+    ((co)[0] >= 0 && (C03_REC(vp) ? (co)[0] <= 8 : (co)[0] < (long)(vp)->shape[0]) &&                \
+     (C03_RANK(vp) < 2 || ((co)[1] >= 0 && (co)[1] < (long)(vp)->shape[1])) &&                       \
+     (C03_RANK(vp) < 3 || ((co)[2] >= 0 && (co)[2] < (long)(vp)->shape[2])))
+
+static unsigned long NC_varoffset(NC *handle, NC_var *vp, const long *coords)
+    __CPROVER_requires(handle != NULL && vp != NULL && coords != NULL && handle->file_type == HDF_FILE)
+    __CPROVER_requires(vp->assoc != NULL && vp->assoc->count >= 1 && vp->assoc->count <= 3 && vp->shape != NULL &&
+                       vp->dsizes != NULL)
+    __CPROVER_requires(vp->HDFsize == 1 || vp->HDFsize == 2 || vp->HDFsize == 4 || vp->HDFsize == 8)
+    __CPROVER_requires(VO_SMALL(vp) && VO_INRANGE(vp, coords))
+    /* what NC_var_shape establishes (proved in var_u.c, obligation NC_var_shape) */
+    __CPROVER_requires(C03_DSIZES_RM3(vp, vp->HDFsize))
+    __CPROVER_assigns()
+    /* offset == row-major element index * element size */
+    __CPROVER_ensures(__CPROVER_return_value == (unsigned long)vp->HDFsize * VO_RM(vp, coords))
+    /* the element lies inside the variable (fixed size) / inside its record (record variable) */
+    __CPROVER_ensures(!C03_REC(vp) ==> __CPROVER_return_value + (unsigned long)vp->HDFsize <= vp->len)
+    __CPROVER_ensures(C03_REC(vp) ==> (__CPROVER_return_value >= (unsigned long)coords[0] * vp->len &&
+                                      __CPROVER_return_value + (unsigned long)vp->HDFsize <=
+                                          ((unsigned long)coords[0] + 1) * vp->len));
+
+/* ---- NCvcmaxcontig ---- */
+int  g_vc_k;    /* harness-computed expected result index (-1: NULL) */
+#define VC_B(handle, vp) (C03_REC(vp) ? 1 : 0)
+#define VC_SIMPLEREC(handle, vp) (C03_REC(vp) && (vp)->assoc->count == 1 && (handle)->recsize <= (vp)->len)
+
+static const long *NCvcmaxcontig(NC *handle, NC_var *vp, const long *origin, const long *edges)
+    __CPROVER_requires(handle != NULL && vp != NULL && origin != NULL && edges != NULL)
+    __CPROVER_requires(vp->assoc != NULL && vp->assoc->count >= 1 && vp->assoc->count <= H4_MAX_VAR_DIMS &&
+                       vp->shape != NULL)
+    __CPROVER_requires(0 <= g_d && g_d < C03_RANK(vp))
+    /* the caller (NCvario) has validated the start corner with NCcoordck */
+    __CPROVER_requires(C03_FIXED(vp, g_d) ==> !C03_OUTSIDE(vp, origin, g_d))
+    /* extents are int32 dimension sizes, edges come from int32 arguments */
+    __CPROVER_requires(vp->shape[g_d] <= 2147483647UL && edges[g_d] >= -2147483647L - 1 && edges[g_d] <= 2147483647L)
+    __CPROVER_assigns()
+    /* the one-dimensional only-record-variable case hands back the whole edge vector */
+    __CPROVER_ensures(VC_SIMPLEREC(handle, vp) ==> __CPROVER_return_value == edges)
+    /* result is NULL or points at dimension k, boundary <= k < rank (k == 0 only in the case above) */
+    __CPROVER_ensures(__CPROVER_return_value == NULL ||
+                      (__CPROVER_same_object(__CPROVER_return_value, edges) &&
+                       __CPROVER_return_value - edges >= (VC_SIMPLEREC(handle, vp) ? 0 : VC_B(handle, vp)) &&
+                       __CPROVER_return_value - edges <= (C03_RANK(vp) > VC_B(handle, vp) ? C03_RANK(vp) - 1 : VC_B(handle, vp))))
+    /* contiguity: every dimension inside k is requested in full (so from k on the request is one run) */
+    __CPROVER_ensures((__CPROVER_return_value != NULL && !VC_SIMPLEREC(handle, vp) &&
+                       g_d > __CPROVER_return_value - edges) ==>
+                      (edges[g_d] == (long)vp->shape[g_d] && origin[g_d] == 0))
+    /* validity: every dimension from k inwards has 0 <= edge <= shape - origin */
+    __CPROVER_ensures((__CPROVER_return_value != NULL && !VC_SIMPLEREC(handle, vp) &&
+                       g_d >= __CPROVER_return_value - edges) ==>
+                      (edges[g_d] >= 0 && edges[g_d] <= (long)vp->shape[g_d] - origin[g_d]))
+    /* maximality: k is the boundary dimension or dimension k itself is only partly requested */
+    __CPROVER_ensures((__CPROVER_return_value != NULL && !VC_SIMPLEREC(handle, vp) &&
+                       __CPROVER_return_value - edges > VC_B(handle, vp) && g_d == __CPROVER_return_value - edges) ==>
+                      edges[g_d] < (long)vp->shape[g_d])
+    /* the complete verdict, computed by the harness over all dimensions */
+    __CPROVER_ensures(g_vc_k < 0 ? __CPROVER_return_value == NULL : __CPROVER_return_value == edges + g_vc_k);
+
 #ifdef H4V_NATIVE
 #include "h4v_native_wrap.h"
 #endif
@@ -238,6 +310,21 @@ bool_t H4_NCcoordck(NC *handle, NC_var *vp, const long *coords)
 static NC   *e_h;
 static long *e_co;
 
+/* A dimension vector of n elements with arbitrary contents.  The real loops walk such vectors
+   downwards with `for (; ip >= boundary; ip--)` and so form (never dereference) the address one
+   element BEFORE the vector when boundary is its first element -- undefined in ISO C, harmless on
+   a flat address space, but cbmc's pointer model wraps the offset and then runs the loop on
+   (obligation *_strictptr shows it).  Assumption A-GUARD: every vector is preceded by one guard
+   element.  The guard holds an arbitrary value and no assigns clause covers it, so a result that
+   depends on it or a write to it still fails the contract. */
+#ifdef C03_STRICT_PTR
+#define C03_VEC(T, p, n) H4V_ND_BUF(T, p, n, 33)
+#else
+#define C03_VEC(T, p, n)                                                                             \
+    H4V_ND_BUF(T, p##_g, (n) + 1, 33);                                                               \
+    T *p = p##_g + 1
+#endif
+
 /* builds handle, variable (rank 1..MAXR, arbitrary shape) and a coordinate vector */
 static void
 mk_env(void)
@@ -246,15 +333,22 @@ mk_env(void)
     g_hw_n = g_hw_ok = g_seek_n = g_seek_off = g_iofail = g_anybad = 0;
     H4V_ND(int, rank);
     H4V_ASSUME(rank >= 1 && rank <= MAXR);
-    NC        *h  = malloc(sizeof(NC));
-    XDR       *x  = malloc(sizeof(XDR));
-    NC_var    *vp = malloc(sizeof(NC_var));
-    NC_iarray *as = malloc(sizeof(NC_iarray));
-    NC_string *nm = malloc(sizeof(NC_string));
-    H4V_ASSUME(h != NULL && x != NULL && vp != NULL && as != NULL && nm != NULL);
-    H4V_ND_BUF(h4v_ulong, shape, rank, 32);
-    H4V_ND_BUF(h4v_ulong, dsizes, rank, 32);
-    H4V_ND_BUF(h4v_long, coords, rank, 32);
+    /* structs are statics (arbitrary contents under dfcc; every field used is set below): heap
+       structs make every field access a byte-level update in cbmc.  The arrays are heap objects
+       of exactly `rank` elements so that any access beyond the rank is a bounds violation. */
+    static NC        s_nc;
+    static XDR       s_x;
+    static NC_var    s_vp;
+    static NC_iarray s_as;
+    static NC_string s_nm;
+    NC              *h  = &s_nc;
+    XDR             *x  = &s_x;
+    NC_var          *vp = &s_vp;
+    NC_iarray       *as = &s_as;
+    NC_string       *nm = &s_nm;
+    C03_VEC(h4v_ulong, shape, rank);
+    C03_VEC(h4v_ulong, dsizes, rank);
+    C03_VEC(h4v_long, coords, rank);
     static char nmbuf[4] = "v";
     nm->values           = nmbuf;
     nm->count = nm->len = 1;
@@ -306,9 +400,6 @@ mk_env(void)
     g_vp         = vp;
     g_nr0        = v_numrecs;
     g_reclen     = (int32)v_len;
-#ifdef FIXSZ
-    H4V_ASSUME(v_HDFsize == FIXSZ && v_szof == FIXSZ);
-#endif
     /* a _FillValue attribute the NC_findattr stub may hand out */
     g_attr        = malloc(sizeof(NC_attr));
     g_attrp       = malloc(sizeof(NC_attr *));
@@ -324,12 +415,13 @@ mk_env(void)
     e_co = coords;
 }
 
-void
-h_NCcoordck(void)
+static void
+run_NCcoordck(int verdict)
 {
     mk_env();
     NC     *h  = e_h;
     NC_var *vp = g_vp;
+    g_chk_verdict    = verdict;
     cdf_routine_name = (h->xdrs->x_op == XDR_ENCODE) ? "SDwritedata" : "SDreaddata";
     /* the existential side of the specification, computed over all dimensions */
     int rec = (vp->shape[0] == 0);
@@ -343,9 +435,13 @@ h_NCcoordck(void)
         bad = 1;
     if (rec && h->xdrs->x_op != XDR_ENCODE && e_co[0] >= vp->numrecs)
         bad = 1;
-    g_anybad   = bad;
-    int old_nr = vp->numrecs;
-    bool_t r   = NCcoordck(h, vp, e_co);
+    g_anybad = bad;
+    /* the unwound run bounds the number of fill records (the fill loop is closed by its loop
+       contract in the other run) */
+    if (verdict)
+        H4V_ASSUME(e_co[0] - vp->numrecs <= 1);
+    int    old_nr = vp->numrecs;
+    bool_t r      = NCcoordck(h, vp, e_co);
     H4V_COVER(r == FALSE && bad, "NCcoordck rejects");
     H4V_COVER(r == TRUE && !rec, "NCcoordck accepts fixed-size");
     H4V_COVER(r == TRUE && rec && g_hw_n >= 2, "NCcoordck fills two or more records");
@@ -354,3 +450,87 @@ h_NCcoordck(void)
     H4V_COVER(r == TRUE && (int)vp->assoc->count == MAXR, "NCcoordck full rank");
     H4V_CANARY("NCcoordck end");
 }
+
+void
+h_NCcoordck(void)
+{
+    run_NCcoordck(0);
+}
+
+void
+h_NCcoordck_verdict(void)
+{
+    run_NCcoordck(1);
+}
+
+/* a second coordinate vector / an edge vector of the same rank */
+static long *e_co2;
+
+void
+h_NC_varoffset(void)
+{
+    mk_env();
+    NC     *h  = e_h;
+    NC_var *vp = g_vp;
+    int     rk = (int)vp->assoc->count;
+    H4V_ASSUME(rk <= 3);
+    C03_VEC(h4v_long, coords2, rk);
+    /* geometry as NC_var_shape compiles it */
+    H4V_ASSUME(VO_SMALL(vp));
+    H4V_ASSUME(vp->HDFsize == 1 || vp->HDFsize == 2 || vp->HDFsize == 4 || vp->HDFsize == 8);
+    H4V_ASSUME(C03_DSIZES_RM3(vp, vp->HDFsize));
+    H4V_ASSUME(VO_INRANGE(vp, e_co) && VO_INRANGE(vp, coords2));
+    unsigned long o1 = NC_varoffset(h, vp, e_co);
+    unsigned long o2 = NC_varoffset(h, vp, coords2);
+    int           same = 1;
+    for (int i = 0; i < rk; i++)
+        if (e_co[i] != coords2[i])
+            same = 0;
+    /* distinct cells never share a byte: offsets differ by at least one element */
+    H4V_CHECK(same || o1 + (unsigned long)vp->HDFsize <= o2 || o2 + (unsigned long)vp->HDFsize <= o1,
+              "distinct coordinates give disjoint elements");
+    H4V_CHECK(!same || o1 == o2, "equal coordinates give equal offsets");
+    H4V_COVER(!same && rk == 3 && C03_REC(vp), "varoffset rank 3 record variable");
+    H4V_COVER(!same && rk == 2 && !C03_REC(vp), "varoffset rank 2 fixed");
+    H4V_CANARY("NC_varoffset end");
+}
+
+void
+h_NCvcmaxcontig(void)
+{
+    mk_env();
+    NC     *h  = e_h;
+    NC_var *vp = g_vp;
+    int     rk = (int)vp->assoc->count;
+    C03_VEC(h4v_long, edges, rk);
+    H4V_ND(h4v_ulong, h_recsize);
+    h->recsize = h_recsize;
+    int rec    = (vp->shape[0] == 0);
+    int b      = rec ? 1 : 0;
+    for (int i = 0; i < rk; i++) {
+        H4V_ASSUME((rec && i == 0) || (e_co[i] >= 0 && e_co[i] < (long)vp->shape[i]));
+        H4V_ASSUME(vp->shape[i] <= 2147483647UL && edges[i] >= -2147483647L - 1 && edges[i] <= 2147483647L);
+    }
+    /* reference: walk from the innermost dimension outwards */
+    int k = -2;
+    if (rec && rk == 1 && h->recsize <= vp->len)
+        k = 0;
+    else {
+        for (int i = rk - 1; i >= b && k == -2; i--) {
+            if (edges[i] < 0 || edges[i] > (long)vp->shape[i] - e_co[i])
+                k = -1;
+            else if (edges[i] < (long)vp->shape[i])
+                k = i;
+        }
+        if (k == -2)
+            k = b;
+    }
+    g_vc_k         = k;
+    const long *r = NCvcmaxcontig(h, vp, e_co, edges);
+    H4V_COVER(r == NULL, "maxcontig rejects an edge");
+    H4V_COVER(r != NULL && r - edges == rk - 1 && rk >= 3, "maxcontig innermost only");
+    H4V_COVER(r != NULL && r == edges && rk >= 3 && !rec, "maxcontig whole variable");
+    H4V_COVER(r != NULL && rk == MAXR && r - edges == 1, "maxcontig full rank");
+    H4V_CANARY("NCvcmaxcontig end");
+}
+
